@@ -424,7 +424,7 @@ def grammar_diff():
             return {"rule": rule, "node_line": k + 1, "grammar.go": la.strip(), "grammar.peg": lb.strip()}
     ga = open(os.path.join(COQ, "GoGrammar.v")).read()
     pa = open(os.path.join(COQ, "PegGrammar.v")).read()
-    A = re.findall(r'\("([A-Za-z0-9_]+)", (\[[^\]]*\]), (?:\[[^\]]*\], )?\n\s+(\[.*?\])\)[;\n]', ga[ga.find("Definition go_actions"):], re.S)
+    A = re.findall(r'\("([A-Za-z0-9_]+)", (\[[^\]]*\]),(?: \[[^\]]*\],)?\n\s+(\[.*?\])\)[;\n]', ga[ga.find("Definition go_actions"):], re.S)
     B = re.findall(r'\("([A-Za-z0-9_]+)", (\[[^\]]*\]),\n\s+(\[.*?\])\)[;\n]', pa[pa.find("Definition peg_actions"):], re.S)
     for x, y in zip(A, B):
         if x[0] != y[0] or x[-1] != y[-1]:
